@@ -280,6 +280,8 @@ RunResult run_qsl(const Program &p, bool trace) {
             size_t idx = 0;       // index into 'start' of the element under the iterator
             size_t epos = 0;      // index into 'expect'
             bool any_insert = false;
+            size_t first_insert_idx = 0;
+            std::map<long, long> ins_at;
             size_t guard = 0;
             while (itr) {
                 if (guard++ > (n0 + inserted.size()) * 2 + 8) VIOL("C12", "C12:itr-endless", "%s iterator does not terminate", kname());
@@ -329,7 +331,19 @@ RunResult run_qsl(const Program &p, bool trace) {
                     int rc = m_list_itr_insert((m_list_itr_t *)itr, cell(nv));
                     if (rc != 0) VIOL("C12", "C12:itr-insert-failed", "list iterator insert rc=%d", rc);
                     inserted.push_back(nv);
-                    any_insert = true;   // what the iterator yields afterwards is not constrained by the statement
+                    if (!any_insert) first_insert_idx = idx;
+                    ins_at[id]++;   // (an insert makes the walk yield the current element once more)
+                    any_insert = true;   // what the iterator yields right afterwards (the inserted element, the current one again) is not constrained
+                } else if (any_insert && D->kind == K_LIST && id >= 0 && !std::count(inserted.begin(), inserted.end(), id) && !std::count(removed.begin(), removed.end(), id) &&
+                           (int)r.below(100) < rm_pct / 2) {
+                    // a removal later in a walk that inserted earlier: the element goes, and every element behind it is still visited once
+                    int rc = m_list_itr_remove((m_list_itr_t *)itr);
+                    if (rc != 0) VIOL("C12", "C12:itr-remove-failed", "list iterator remove (after an insert) rc=%d", rc);
+                    removed.push_back(id);
+                    auto pos = std::find(expect.begin(), expect.end(), id);
+                    if (pos != expect.end()) expect.erase(pos);
+                    D->mutations++;
+                    sim::R->ctr.probe("list_itr_remove_after_insert");
                 } else {
                     epos++;
                 }
@@ -342,6 +356,16 @@ RunResult run_qsl(const Program &p, bool trace) {
             oracle_eval("C12.itr-visit-once");
             if (!any_insert && !(fired && visited.empty()) && visited.size() != n0)
                 VIOL("C12", "C12:itr-missed", "%s iterator yielded %zu of %zu elements", kname(), visited.size(), n0);
+            if (any_insert) {
+                // elements that were still ahead when the first insert happened are each visited exactly once, whatever was removed meanwhile
+                for (size_t k = first_insert_idx + 1; k < n0; k++) {
+                    long cnt = std::count(visited.begin(), visited.end(), start[k]);
+                    long want = 1 + (ins_at.count(start[k]) ? ins_at[start[k]] : 0);
+                    if (cnt != want)
+                        VIOL("C12", cnt < want ? "C12:itr-missed:after-insert" : "C12:itr-twice:after-insert", "list iterator yielded element %ld (position %zu, behind an iterator insert at position %zu) %ld time(s), %ld expected; order was [%s]",
+                             start[k], k, first_insert_idx, cnt, want, seq_str(start).c_str());
+                }
+            }
             if (!any_insert) {
                 D->model = expect;
             } else {
